@@ -223,10 +223,12 @@ func sortKey(s *Sort) string {
 
 var keySorts = map[string]*Sort{}
 var touchedKeys = map[string]bool{}
+var keyInit = map[string]*Term{} // initial arrays of map keys
 
 func (h *Heap) cellArr(s *Sort, tag string) (string, *Term) {
 	key := "H:" + sortKey(s) + ":" + tag
 	keySorts[key] = s
+	touchedKeys[key] = true
 	if a, ok := h.arrays[key]; ok {
 		return key, a
 	}
@@ -244,6 +246,7 @@ func (h *Heap) cellArrByKey(key string) *Term {
 
 func (h *Heap) elemArr(s *Sort, k int) (string, *Term) {
 	key := fmt.Sprintf("M:%s#%d", sortKey(s), k)
+	touchedKeys[key] = true
 	if a, ok := h.arrays[key]; ok {
 		return key, a
 	}
@@ -467,6 +470,8 @@ func (h *Heap) initial(key string) *Term {
 		n.arrays = map[string]*Term{}
 		_, a := n.elemArr(sortFromKey(parts[0]), k)
 		return a
+	case key == "MAPLEN":
+		return Var("MAPLEN_0", ArraySort(RefSort, IntSort))
 	}
-	return nil
+	return keyInit[key]
 }
